@@ -55,6 +55,32 @@ OutMatch(mr, real, actorRcpt) ==
   /\ \A i \in (n1 + 1)..(n1 + nb) : \E b \in mr.bag : Match(b, real[i])
   /\ \A i \in 1..n3 : Match(mr.tail[i], real[n1 + nb + i])
 
+
+(* ------------------------------------------------------------------------ *)
+(* HTTP level (harness/rig/steps_c12.go).  The same step records, produced    *)
+(* by a complete node (HTTP API, raft, FSM, output stream), carry "rawout":   *)
+(* [rid, crc, to] of every message of the batch; a final "streams" record     *)
+(* lists what the long poll(s) of every session delivered.                    *)
+(* StreamIsEntitledReplies: the stream of a live session is exactly the       *)
+(* sequence of messages addressed to it while it existed (in order, once,     *)
+(* across cancelled and resumed polls); the stream of an ended session is a   *)
+(* prefix of that (the handler may stop as soon as the session is gone).      *)
+(* ------------------------------------------------------------------------ *)
+ExistsIn(pj, s) == \E q \in DOMAIN pj.ss : pj.ss[q].id = s /\ pj.ss[q].rid = 0
+AddressedTo(rec, s) == LET sel == SelectSeq(rec.rawout, LAMBDA m : s \in ToSet(m.to))
+                       IN [k \in DOMAIN sel |-> <<rec.e.id, sel[k].rid, sel[k].crc>>]
+RECURSIVE WantStream(_, _, _, _)
+WantStream(j, i, h, s) ==
+  IF j >= i THEN <<>>
+  ELSE (IF Trace[j].k = "step" /\ Trace[j].h = h /\ ExistsIn(Trace[j - 1].post, s) THEN AddressedTo(Trace[j], s) ELSE <<>>)
+       \o WantStream(j + 1, i, h, s)
+HistStart(i, h) == CHOOSE j \in 1..i : Trace[j].k = "reset" /\ Trace[j].h = h
+IsPfx(a, b) == Len(a) <= Len(b) /\ SubSeq(b, 1, Len(a)) = a
+StreamOk(i, q) ==
+  LET rec == Trace[i]  s == rec.streams[q]
+      want == WantStream(HistStart(i, rec.h) + 1, i, rec.h, s.sid)
+  IN IF s.live THEN s.got = want ELSE IsPfx(s.got, want)
+
 (* which part of a state differs (diagnostics) *)
 DiffFields(a, b) == {f \in {"ss", "nk", "ch", "holds", "srv", "lp", "cfg"} : a[f] # b[f]}
 
@@ -76,6 +102,13 @@ Eval(i) ==
        /\ \A k \in DOMAIN rec.lookup :
              IF rec.lookup[k][2] = "nosuch" /\ Sid(rec.lookup[k][1], 0) \in DOMAIN b.ss
              THEN PrintT(<<"PROP", <<"C17", "LookupSound">>, rec.h, rec.i>>) ELSE TRUE
+  ELSE IF rec.k = "streams"
+  THEN \A q \in DOMAIN rec.streams :
+         IF StreamOk(i, q) THEN TRUE
+         ELSE /\ PrintT(<<"PROP", <<"C12", "StreamIsEntitledReplies">>, rec.h, rec.i>>)
+              /\ PrintT(<<"STREAM", rec.h, rec.streams[q].sid, rec.streams[q].live, rec.streams[q].polls, Len(rec.streams[q].got),
+                          Len(WantStream(HistStart(i, rec.h) + 1, i, rec.h, rec.streams[q].sid))>>)
+              /\ IF rec.streams[q].polls > 1 THEN PrintT(<<"PROP", <<"C04", "StreamIsEntitledReplies">>, rec.h, rec.i>>) ELSE TRUE
   ELSE IF rec.k = "expire"
   THEN (* C17 ExpireExact: exactly the sessions with Reply = 0 idle for longer than the expiration *)
        LET want == {rec.ages[j][1] : j \in {q \in DOMAIN rec.ages : rec.ages[q][2] = 0 /\ rec.ages[q][3] > 0}} IN
